@@ -69,6 +69,8 @@ struct Sched {
     bool active = false;         // scheduling on (between run() start and end)
     bool quiet = false;          // suppress op log lines
     bool yield_on_lock = false;
+    bool track_only = false;     // only atomics named explicitly with name_obj() are scheduling points / logged (default: all)
+    std::set<const void *> tracked_objs;
     std::map<const void *, std::string> obj_names;
     std::map<const void *, std::string> ptr_names;
     std::map<int, int> anon_count;
@@ -90,6 +92,7 @@ struct Sched {
         deadlock = false;
         active = false;
         obj_names.clear();
+        tracked_objs.clear();
         ptr_names.clear();
         anon_count.clear();
         steps = 0;
@@ -101,7 +104,9 @@ struct Sched {
         if (it != obj_names.end()) return it->second;
         return "?";
     }
-    void name_obj(const void *a, const std::string &n) { obj_names[a] = n; }
+    void name_obj(const void *a, const std::string &n) { obj_names[a] = n; tracked_objs.insert(a); }
+    // track_only mode: an operation on an atomic that was not named explicitly is neither logged nor a scheduling point
+    bool skip_obj(const void *a) const { return track_only && !tracked_objs.count(a); }
     void name_ptr(const void *a, const std::string &n) { ptr_names[a] = n; }
     std::string ptr_name(const void *a) {
         if (!a) return "null";
@@ -115,10 +120,12 @@ struct Sched {
         int t = self_id;
         int n = anon_count[t]++;
         obj_names[a] = "a" + std::to_string(t) + "." + std::to_string(n);
+        tracked_objs.erase(a);
     }
     void forget(const void *a) {
         if (obj_names.empty()) return;
         obj_names.erase(a);
+        tracked_objs.erase(a);
     }
 
     bool enabled(int i) {
@@ -370,6 +377,10 @@ public:
     }
     void wait(T old, std::memory_order = std::memory_order_seq_cst) const noexcept {
         auto &s = vshim::S();
+        if (s.skip_obj(this)) {   // untracked: block silently
+            if (_v == old) { const T *p = &_v; s.block([p, old] { return !(*p == old); }); }
+            return;
+        }
         if (_v == old) {
             s.log_op("wait-block " + s.obj_name(this));
             const T *p = &_v;
@@ -386,13 +397,13 @@ public:
 private:
     void op2(const char *kind, const T &seen, const T &desired) const {
         auto &s = vshim::S();
-        if (!s.active || vshim::self_id < 0 || vshim::in_assert) return;
+        if (!s.active || vshim::self_id < 0 || vshim::in_assert || s.skip_obj(this)) return;
         s.log_op(std::string(kind) + " " + s.obj_name(this) + " " + vshim::val_str(seen) + ">" + vshim::val_str(desired));
         s.yield();
     }
     void op(const char *kind, const T &seen) const {
         auto &s = vshim::S();
-        if (!s.active || vshim::self_id < 0 || vshim::in_assert) return;
+        if (!s.active || vshim::self_id < 0 || vshim::in_assert || s.skip_obj(this)) return;
         s.log_op(std::string(kind) + " " + s.obj_name(this) + " " + vshim::val_str(seen));
         s.yield();
     }
